@@ -88,6 +88,25 @@ func main() {
 		}()
 		pd.run(c)
 	}()
+	if *tier == "thorough" && overlay == nil {
+		// thorough: the same rules, plus the kill matrix of the property's single-edit variants
+		// (informational: says whether the rules still have teeth on this tree; never an alarm)
+		res := computeMutants(*repo, *verif, *property)
+		sum := map[string]int{}
+		var notKilled []mutantResult
+		for _, r := range res {
+			sum[r.Status]++
+			if r.Status != "killed" && r.Status != "silent-ok" {
+				notKilled = append(notKilled, r)
+			}
+		}
+		c.Info["mutant_variants"] = len(res)
+		c.Info["mutant_summary"] = sum
+		c.Info["mutants_not_killed"] = notKilled
+		for _, r := range notKilled {
+			fmt.Fprintf(os.Stderr, "note: variant %s %s (expected %s)\n", r.Name, r.Status, r.Expect)
+		}
+	}
 	if *list {
 		for _, o := range c.Obls {
 			fmt.Printf("%-10s %s  %s  %s\n", o.Status, o.Key, o.Pos, o.Detail)
